@@ -25,7 +25,19 @@ static std::string go(const Case& c, const std::string& pat, MK&& mk) {
     return run_dyn(c, pack);
 }
 
+// v1 I:n I:a I:b [I:c] : the public variadic view::slice with exactly ONE (all-integer) slice on a 1-d array
+static std::string single(const Case& c) {
+    std::vector<ll> sh{c.args[0].val}, data; for (ll i = 0; i < c.args[0].val; i++) data.push_back(i);
+    auto a = make_array(sh, data);
+    try {
+        if (c.args.size() == 3) return report_view(nm::view::slice(a, nmtools_tuple{(int)c.args[1].val, (int)c.args[2].val}));
+        else return report_view(nm::view::slice(a, nmtools_tuple{(int)c.args[1].val, (int)c.args[2].val, (int)c.args[3].val}));
+    } catch (std::length_error&) { return "trap length_error"; }
+      catch (std::bad_alloc&) { return "trap length_error"; }
+}
+
 static std::string handle(const Case& c) {
+    if (c.op == "v1") return single(c);
     if (c.op != "mx" && c.op != "vw") return "unsupported";
     if (c.args[0].raw != "S:dyn") return "unsupported";
     const std::string pat = c.args[1].raw.substr(2);
